@@ -98,6 +98,18 @@ static std::vector<Cfg> configs(const std::string &planner, bool thorough)
         v.push_back(c);
     };
     int B = 60;
+    if ((flags & vpl::MULTILEVEL) && !thorough)
+    {
+        // multilevel planners are an order of magnitude slower per execution (roadmap + path-restriction machinery): the quick tier
+        // drives a reduced set, with the two-level sequence R^2 <- SE(2) in the SE(2) configurations
+        add("wallgap4", "R2", "state", 0.3, 0, 0.02, 40);
+        add("diag4", "R2", "state", 0.3, 10, 0.2, 40);
+        add("enclosed4", "R2", "state", 0.3, 0, 0.02, 40);
+        add("maze6", "R2", "region-unsampleable", 0.5, 0, 0.02, 40);
+        add("wallgap4", "SE2", "state", 0.3, 0, 0.02, 40);
+        add("empty4", "SE2", "states", 0.3, 0, 0.05, 40);
+        return v;
+    }
     for (auto &m : maps())
         add(m.name, "R2", "state", 0.3, 0, 0.02, B);
     add("empty4", "R2", "state", 1e-9, 0, 0.02, B);  // tiny threshold: only the goal state itself satisfies it
@@ -154,6 +166,8 @@ int main(int argc, char **argv)
         int jobCrashes = 0;
         const int maxJobCrashes = a.thorough() ? 6 : 2;
         size_t N = a.thorough() ? 60 : 40;
+        if ((vpl::find(planner)->flags & vpl::MULTILEVEL) && !a.thorough())
+            N = 24;
         int D = a.thorough() ? 2 : 1;
         size_t core = a.thorough() ? 3 : 2;
         for (auto &cfg : configs(planner, a.thorough()))
